@@ -1,6 +1,7 @@
 import OFCore.Lemmas.EngineStore
 import OFCore.RuleSys
 import OFCore.PeriodSpec
+import OFCore.Lemmas.RuleSysCoherent
 /-!
 # C01 — a calculated value equals the rule system's meaning on the given inputs
 
@@ -21,19 +22,19 @@ variable {P : Type} [DecidableEq P]
 /-- From ANY consistent state (in particular any state reached by earlier requests), a top-level
     request returns the meaning, keeps the state consistent, leaves the stack empty and nothing
     marked for deletion. -/
-theorem C01_calculate_eq_den (sys : Sys P) (rk : Nat → Nat) (hr : VarRanked sys rk) (hmsl : 1 ≤ sys.msl)
+theorem C01_calculate_eq_den (sys : Sys P) (hk : SlotCoherent sys) (rk : Nat → Nat) (hr : VarRanked sys rk) (hmsl : 1 ≤ sys.msl)
     (n : Nat) (s : St P) (hc : Cons sys s.cache) (hs : s.stack = []) (hi : s.inval = [])
     (v : Nat) (p : P) (r : Res) (hd : den sys n v p = some r) :
     ∃ s', request sys n s (v, p) = some (r, false, s') ∧ Cons sys s'.cache ∧ s'.stack = [] ∧ s'.inval = [] := by
-  obtain ⟨s', h1, h2, h3, h4⟩ := run_eq_den sys rk hr hmsl n s v p r hc (by rw [hs]; intro j hj; cases hj) hi hd
+  obtain ⟨s', h1, h2, h3, h4⟩ := run_eq_den sys hk rk hr hmsl n s v p r hc (by rw [hs]; intro j hj; cases hj) hi hd
   refine ⟨s', ?_, h2, by rw [h3, hs], h4⟩
   unfold request
   simp only [h1, h3, hs, if_true]
-  rw [purge_of_inval_nil s' h4]
+  rw [purge_of_inval_nil sys s' h4]
 
 /-- The same for every finite sequence of requests, successful or not: each one returns its
     meaning, whatever was requested before (every reachable state is consistent). -/
-theorem C01_requests_eq_den (sys : Sys P) (rk : Nat → Nat) (hr : VarRanked sys rk) (hmsl : 1 ≤ sys.msl)
+theorem C01_requests_eq_den (sys : Sys P) (hk : SlotCoherent sys) (rk : Nat → Nat) (hr : VarRanked sys rk) (hmsl : 1 ≤ sys.msl)
     (n : Nat) (krs : List (Node P × Res)) (hd : ∀ kr ∈ krs, den sys n kr.1.1 kr.1.2 = some kr.2) :
     ∀ s : St P, Cons sys s.cache → s.stack = [] → s.inval = [] →
       ∃ s', requests sys n s (krs.map (·.1)) = some (krs.map (·.2), s') ∧
@@ -43,19 +44,26 @@ theorem C01_requests_eq_den (sys : Sys P) (rk : Nat → Nat) (hr : VarRanked sys
   | cons kr krs ih =>
     intro s hc hs hi
     obtain ⟨s1, h1, hc1, hs1, hi1⟩ :=
-      C01_calculate_eq_den sys rk hr hmsl n s hc hs hi kr.1.1 kr.1.2 kr.2 (hd kr List.mem_cons_self)
+      C01_calculate_eq_den sys hk rk hr hmsl n s hc hs hi kr.1.1 kr.1.2 kr.2 (hd kr List.mem_cons_self)
     obtain ⟨s2, h2, hc2, hs2, hi2⟩ := ih (fun kr' hkr' => hd kr' (List.mem_cons_of_mem _ hkr')) s1 hc1 hs1 hi1
     exact ⟨s2, by simp [requests, h1, h2], hc2, hs2, hi2⟩
+
+/-- The hypothesis `SlotCoherent` is met by every elaborated declarative system whose eternal
+    variables are well-formed (no end date, formulas in force at every date, reading only fixed
+    periods or other eternal variables): values stored under ETERNITY mean the same whatever
+    period they were requested for.  (Trivially met when no variable is eternal.) -/
+theorem C01_elab_slotCoherent (d : Decl) (armed : List Nat) (hwf : EternalWF d) :
+    SlotCoherent (elabSys d armed) := elabSys_slotCoherent d armed hwf
 
 /-- the initial state is consistent -/
 theorem C01_init_consistent (sys : Sys P) : Cons sys (St.init : St P).cache ∧
     (St.init : St P).stack = [] ∧ (St.init : St P).inval = [] :=
-  ⟨by intro k x g h; simp [St.init, lookup] at h, rfl, rfl⟩
+  ⟨by intro v p x g h; simp [St.init, lookup] at h, rfl, rfl⟩
 
 /-- A supplied input takes precedence over the formula, in the meaning and in the machine. -/
 theorem C01_input_precedence (sys : Sys P) (v : Nat) (p : P) (x : Val) (hin : sys.input v p = some x) :
     (∀ n, den sys (n+1) v p = some (.ok x)) ∧
-    (∀ n s, lookup s.cache (v, p) = none → run sys (n+1) s v p = some (.ok x, false, s)) := by
+    (∀ n s, lookup s.cache (sys.slot (v, p)) = none → run sys (n+1) s v p = some (.ok x, false, s)) := by
   constructor
   · intro n; simp [den, hin]
   · intro n s hl; simp [run, hl, hin]
@@ -225,7 +233,7 @@ theorem C01_result_type (d : Decl) (armed : List Nat) (v : Nat) (vv : Var) (p : 
 /-- A request that comes back to a node still being computed is refused with a circular-
     definition error (instead of returning a number), and the error propagates to the caller. -/
 theorem C01_cycle_refused (sys : Sys P) (n : Nat) (s : St P) (v : Nat) (p : P)
-    (hl : lookup s.cache (v, p) = none) (hin : sys.input v p = none) (hon : (v, p) ∈ s.stack) :
+    (hl : lookup s.cache (sys.slot (v, p)) = none) (hin : sys.input v p = none) (hon : (v, p) ∈ s.stack) :
     run sys (n+1) s v p = some (.error .cycle, false, s) := by
   simp [run, hl, hin, hon]
 
@@ -246,6 +254,6 @@ example : ∃ x, den (elabSys ⟨1, 1, [0], 1,
     [(0, ⟨.month, ⟨2018, 1, 1⟩, 1⟩, [10])]⟩ []) 5 1 ⟨.month, ⟨2018, 1, 1⟩, 1⟩ = some (.ok x) ∧ x = [11] := by
   refine ⟨_, ?_, rfl⟩
   simp [den, denE, elabSys, formulaInForce, pickFormula, pickStep, elabExpr, elabRead, applyPT, servedPeriod,
-    inputLookup, startOrdOf, Decl.size, f2, castTo, ord, dby, dbm, isLeap]
+    inputLookup, startOrdOf, storageKey, Decl.size, f2, castTo, ord, dby, dbm, isLeap, Int.max_def]
 
 end OFCore
